@@ -21,7 +21,8 @@ impl ExtendedPublicKey {
         let fingerprint = parent_fingerprint.unwrap_or(&[0, 0, 0, 0]);
 
         ExtendedPublicKey {
-            public_key: public_key.clone(),
+            // BIP32 serialises, hashes and derives from the compressed point, whatever form the caller holds the key in
+            public_key: public_key.to_compressed_impl().unwrap_or_else(|_| public_key.clone()),
             chain_code: chain_code.to_vec(),
             depth: *depth,
             index: *index,
